@@ -1,0 +1,13 @@
+//go:build verif
+
+// Licensed to the Apache Software Foundation (ASF) under one or more contributor license
+// agreements. See the NOTICE file distributed with this work for additional information regarding
+// copyright ownership. The ASF licenses this file to you under the Apache License, Version 2.0.
+
+#include "textflag.h"
+
+// func verifGetg() unsafe.Pointer
+TEXT ·verifGetg(SB),NOSPLIT,$0-8
+	MOVQ (TLS), AX
+	MOVQ AX, ret+0(FP)
+	RET
